@@ -196,7 +196,7 @@ def C05(ctx):
     ctx.res.cov['exhaustive'] = not ctx.quick
     if ctx.quick:
         cases = ctx.sample(cases, 700)
-    cases += ctx.export('FamilyX(p, {"same-set-twice-direct", "same-set-twice-in-set"})')
+    cases += ctx.export('FamilyX(p, {"same-set-twice-direct", "same-set-twice-in-set", "inline-set-conflict"})')
     ctx.design_analyze(cases, limit=500 if ctx.quick else 1200, label='family K ')
     ctx.run(cases, runtime=False, check=True)
 
@@ -209,7 +209,7 @@ def C08(ctx):
                      'plus every program of family G passed directly; non-trivial = WireSem: UnusedDirect # {} or an indirectly used item; '
                      'judge: unused => rejected with an unused diagnostic and no output; contributing => accepted; partially used FieldsOf lists are free')
     nt = lambda c: 'unused' in reasons(c) or c['key'].startswith('U/indirect')
-    ucases = ctx.export('FamilyU(p)') + ctx.export('FamilyX(p, {"two-fieldsof-second-unused", "set-used-by-first-injector-only", "two-fieldsof-items", "bind-after-concrete"})')
+    ucases = ctx.export('FamilyU(p)') + ctx.export('FamilyX(p, {"two-fieldsof-second-unused", "set-used-by-first-injector-only", "two-fieldsof-items", "bind-after-concrete", "inline-set-partly-used", "inline-set-unused", "inline-set-in-named-set", "inline-set-twice"})')
     ctx.design_analyze(ucases, label='family U ')
     ctx.run(ucases, nontrivial=nt, runtime=True, switches=W_ONLY)
     g = [c for c in ctx.export(G(3, 'all', ('dir',))) if 'unused' in reasons(c) or verdict(c) == 'yes']
@@ -248,7 +248,7 @@ def C10(ctx):
         w = json.dumps(c['expect'][0]['wiring'], sort_keys=True)
         if byb.setdefault(b, w) != w:
             raise Broken('WireSem wiring differs between regroupings of base ' + b)
-    cases += ctx.export('FamilyX(p, {"same-name-packages", "two-fieldsof-items", "bind-after-concrete", "two-unnamed-values", "multi-name-var-sets", "same-named-sets-two-packages"})')
+    cases += ctx.export('FamilyX(p, {"same-name-packages", "two-fieldsof-items", "bind-after-concrete", "two-unnamed-values", "multi-name-var-sets", "same-named-sets-two-packages", "inline-set-partly-used", "inline-set-in-named-set"})')
     ctx.design_analyze(cases, limit=250 if ctx.quick else 1500, label='family M ')
     ctx.run(cases, nontrivial=lambda c: c['prog']['sets'] != [], runtime=True, switches=W_ONLY)
 
@@ -366,6 +366,9 @@ def names_conformance(ctx, pred, out):
     cov = ctx.res.cov
     for key, (pkgname, txt) in sorted(getattr(out, 'gen', {}).items()):
         if key not in pred:
+            continue
+        if 'U8' in key or 'A8' in key:        # the string operators of WireNamesAlloc are ASCII
+            cov['names_not_modelled_non_ascii'] = cov.get('names_not_modelled_non_ascii', 0) + 1
             continue
         want = json.loads(json.dumps(pred[key]).replace('@PKG', pkgname))
         m = re.search(r'^func Inject\((\w*) ?[^)]*\) \(', txt, re.M)
